@@ -89,6 +89,9 @@ var (
 	ErrEmptyWorkloadID             = errors.New("workload ID is empty")
 	ErrEmptyEntrypointName         = errors.New("entrypoint name is empty")
 	ErrUnderlineInEntrypointName   = errors.New("entrypoint name has '_' character")
+	ErrInvalidAppName              = errors.New("app name must not contain '/' or be '.' or '..'")
+	ErrInvalidEntrypointName       = errors.New("entrypoint name must not contain '/' or be '.' or '..'")
+	ErrInvalidNodeName             = errors.New("node name must not contain '/' or be '.' or '..'")
 	ErrEmptyRawEngineOp            = errors.New("raw engine op is empty")
 
 	// Store
